@@ -105,7 +105,17 @@ def run_one(case):
         blocks = []
         for i, bd in enumerate(case['blocks']):
             if bd['t'] == 'td':
-                blk = edzed.TimeDate(f"b{i}", times=bd['times'], dates=bd['dates'], weekdays=bd['wds'], utc=bd['utc'])
+                kw = {}
+                if bd.get('link'):
+                    # every change of this block's output reconfigures another block - from INSIDE the
+                    # scheduler's alarm handling when the change happens at a boundary
+                    new = bd['link']['cfg']
+                    kw['on_output'] = edzed.Event(
+                        f"b{bd['link']['to']}", 'reconfig',
+                        efilter=(edzed.not_from_undef,
+                                 lambda data, _n=new: dict(times=_n['times'], dates=_n['dates'], weekdays=_n['wds'])))
+                blk = edzed.TimeDate(f"b{i}", times=bd['times'], dates=bd['dates'], weekdays=bd['wds'], utc=bd['utc'],
+                                     **kw)
             else:
                 blk = edzed.TimeSpan(f"b{i}", span=bd['span'], utc=bd['utc'])
             blocks.append(blk)
@@ -540,6 +550,17 @@ def directed():
           _td(times=[[[10, 0, 0, 2], [10, 0, 0, 4]]])]
     for cost in (1, 5, 40):
         out.append(dict(start_us=st8, blocks=b8, latency=[], read_cost=cost, timeline=_tl(st8, b8, [], 2)))
+    # block 0 reconfigures block 1 whenever its output changes, i.e. while the scheduler is serving the
+    # alarm point 10:00 that both blocks share; the new configuration of block 1 no longer has 10:00
+    st9 = abs_of(dt.datetime(2024, 6, 15, 9, 59, 0))
+    b9 = [dict(_td(times=[[[10, 0, 0, 0], [11, 0, 0, 0]]]),
+               link=dict(to=1, cfg=_td(times=[[[10, 30, 0, 0], [12, 0, 0, 0]]]))),
+          _td(times=[[[10, 0, 0, 0], [12, 0, 0, 0]]]), _td(times=[[[10, 0, 0, 0], [10, 15, 0, 0]]])]
+    out.append(dict(start_us=st9, blocks=b9, latency=[], read_cost=1, timeline=_tl(st9, b9, [], 3)))
+    b10 = [_td(times=[[[10, 0, 0, 0], [12, 0, 0, 0]]]),
+           dict(_td(times=[[[10, 0, 0, 0], [11, 0, 0, 0]]]),
+                link=dict(to=0, cfg=_td(times=[[[9, 0, 0, 0], [11, 30, 0, 0]]], wds=[1, 2, 3, 4, 5, 6, 7])))]
+    out.append(dict(start_us=st9, blocks=b10, latency=[0, 200], read_cost=2, timeline=_tl(st9, b10, [], 3)))
     return out
 
 
